@@ -240,6 +240,71 @@ def job_discover(job):
     return 1, None, None
 
 
+def job_discover_timing(job):
+    """pyairtouch.discover() with one valid answer per generation at every pair of corner instants: the two
+    searches run side by side and neither may cost the other its result."""
+    import pyairtouch
+    shard, nshards, remote = job
+    n = 0
+    i = 0
+    for t4, t5 in itertools.product(CORNERS + [None], repeat=2):
+        for tie in ("datagram", "timer"):
+            i += 1
+            if i % nshards != shard:
+                continue
+            w = Disc()
+            out = {}
+
+            async def drv(out=out, w=w):
+                out["r"] = await pyairtouch.discover(remote)
+                out["t"] = w.loop.time()
+            task = w.spawn(drv())
+            L = w.loop
+            L.settle()
+            by_gen = {(4 if tr.sock.bound[1] == 49004 else 5): tr for tr in w.net.dgram}
+            pending = sorted([(t, g) for t, g in ((t4, 4), (t5, 5)) if t is not None])
+            guard = 0
+            while not task.done() and guard < 10000:
+                guard += 1
+                if L.has_ready():
+                    L.turn()
+                    continue
+                nd = L.next_deadline()
+                nxt = pending[0][0] if pending else None
+                if nxt is not None and (nd is None or nxt < nd or (nxt == nd and tie == "datagram")):
+                    L.advance_to(nxt)
+                    t, g = pending.pop(0)
+                    by_gen[g].peer_datagram(POOL[g][0])
+                    continue
+                if nd is None:
+                    break
+                L.advance_to(nd)
+                L.turn()
+                while pending and pending[0][0] <= L.time():
+                    t, g = pending.pop(0)
+                    by_gen[g].peer_datagram(POOL[g][0])
+            L.settle()
+            n += 1
+            label = f"discover({remote!r}) AT4 answer at {t4}, AT5 answer at {t5} (tie: {tie} first)"
+            if not task.done():
+                return n, "discover-timing", f"{label}: did not return"
+            got = {a.model.name for a in out["r"]}
+            for g, t in ((4, t4), (5, t5)):
+                name = f"AIRTOUCH_{g}"
+                on_grid = t is not None and any(abs(t - 0.5 * k) < EPS / 2 for k in range(0, 4))
+                if t is not None and t < 1.5 and not on_grid and name not in got:
+                    return n, "discover-timing", f"{label}: the {name} console answered in time but is missing from the result {sorted(got)}"
+                if (t is None or t > 1.5) and name in got:
+                    return n, "discover-timing", f"{label}: {name} reported although it did not answer in time"
+            if len(out["r"]) != len(got):
+                return n, "discover-timing", f"{label}: duplicate clients {out['r']}"
+            if out["t"] > 1.5:
+                return n, "discover-timing", f"{label}: returned at t={out['t']}"
+            if any(not t._closing for t in w.net.dgram):
+                return n, "discover-timing", f"{label}: a discovery endpoint was left open"
+    return n, None, None
+
+
 def _call(fn, args):
     return fn(args)
 
@@ -270,6 +335,9 @@ def run(tier, seed, part=None):
             jobs.append((job_timing, (gen, k, sh, nsh, None)))
         for sh in range(4):
             jobs.append((job_timing, (gen, 1, sh, 4, "192.168.1.77")))
+    for sh in range(8):
+        jobs.append((job_discover_timing, (sh, 8, None)))
+        jobs.append((job_discover_timing, (sh, 8, "192.168.1.77")))
     jobs.append((job_discover, None))
     jobs.append((job_discover, "192.168.1.77"))
     res = explorer.pool().starmap(_call, jobs, chunksize=1)
